@@ -356,6 +356,101 @@ func c09DoubleConnect(c *Ctx) {
 	}
 }
 
+// c09Reconnect: history on the same client. On a first connection the server stops reading, a line is in flight
+// inside the socket write when the application calls Close; the client then connects again and two goroutines send
+// numbered lines. The second server must see the registration, then exactly those lines, per sender in order - and
+// nothing that was handed to the client on the first connection.
+func c09Reconnect(c *Ctx) {
+	for k := 0; k < c.Pick(3, 12); k++ {
+		desc := "a line in flight in the socket write at Close, reconnect, then 2 x 50 numbered lines"
+		rp := map[string]interface{}{"op": "reconnect-after-blocked-write"}
+		c.Journal("C09 " + desc)
+		url, conns := memconn.Listen()
+		gate := memconn.PresetGateWrites(url)
+		cfg := client.NewConfig("me", "ident", "Real")
+		cfg.Server, cfg.Proxy, cfg.Flood, cfg.PingFreq = "irc.test", url, true, 0
+		conn := client.Client(cfg)
+		if conn.Connect() != nil {
+			c.Res.Inconclusive++
+			continue
+		}
+		srv1 := <-conns
+		gate <- struct{}{} // NICK
+		gate <- struct{}{} // USER
+		srv1.WaitLines(2, 3*time.Second)
+		nOld := c.R.Range(1, 5)
+		for i := 0; i < nOld; i++ {
+			conn.Raw(fmt.Sprintf("PRIVMSG #old :line %d handed over on the first connection", i))
+		}
+		time.Sleep(3 * time.Millisecond) // the first of them is now inside the gated write
+		if !withTimeout(5*time.Second, func() { conn.Close() }) {
+			c.Res.Inconclusive++
+			continue
+		}
+		for i := 0; i < 64; i++ { // the second connection's socket is not gated any more in effect
+			gate <- struct{}{}
+		}
+		go func() {
+			for {
+				select {
+				case gate <- struct{}{}:
+				case <-time.After(5 * time.Second):
+					return
+				}
+			}
+		}()
+		if conn.Connect() != nil {
+			c.Res.Inconclusive++
+			continue
+		}
+		srv2 := <-conns
+		var wg sync.WaitGroup
+		for s := 0; s < 2; s++ {
+			wg.Add(1)
+			go func(s int) {
+				defer wg.Done()
+				for q := 0; q < 50; q++ {
+					conn.Privmsg("#new", fmt.Sprintf("s%d-%d", s, q))
+				}
+			}(s)
+		}
+		wg.Wait()
+		conn.Raw("PING :end-of-run")
+		srv2.WaitLine(0, func(l string) bool { return l == "PING :end-of-run" }, 10*time.Second)
+		lines := srv2.Lines()
+		go conn.Close()
+		c.Res.Traces++
+		c.Res.Evaluations++
+		c.Dist("tag:reconnect-after-blocked-write")
+		next := []int{0, 0}
+		bad := ""
+		for i, l := range lines {
+			switch {
+			case strings.HasPrefix(l, "NICK ") || strings.HasPrefix(l, "USER ") || l == "PING :end-of-run":
+			case strings.HasPrefix(l, "PRIVMSG #new :s"):
+				var s, q int
+				fmt.Sscanf(strings.TrimPrefix(l, "PRIVMSG #new :s"), "%d-%d", &s, &q)
+				if s < 0 || s > 1 || q != next[s] {
+					bad = fmt.Sprintf("wire line %d of the second connection is %q: sender %d's lines are not in issue order, once each", i, trunc(l, 60), s)
+				} else {
+					next[s]++
+				}
+			default:
+				bad = fmt.Sprintf("wire line %d of the second connection was never handed to the client on it: %q", i, trunc(l, 80))
+			}
+			if bad != "" {
+				break
+			}
+		}
+		if bad == "" && (next[0] != 50 || next[1] != 50) && conn.Connected() {
+			bad = fmt.Sprintf("only %d + %d of the 2 x 50 lines reached the second server", next[0], next[1])
+		}
+		if bad != "" {
+			c.SpecFail("spec", desc, "", bad, rp)
+		}
+	}
+}
+
 func btoi(b bool) int {
 	if b {
 		return 1
@@ -365,6 +460,7 @@ func btoi(b bool) int {
 
 func c09(c *Ctx) {
 	c09DoubleConnect(c)
+	c09Reconnect(c)
 	for i := 0; i < c.Pick(10, 80); i++ {
 		ns := []int{1, 2, 3, 5, 8, 32}[c.R.N(6)]
 		per := []int{1, 10, 33, 100, 400}[c.R.N(5)]
